@@ -62,6 +62,7 @@ func c10Transports() []c10Transport {
 			// Authorization: Basic base64(id:) with an empty password, the secret travels in the body without client_id
 			return world.Auth{Mode: "raw", RawHeader: "Basic " + base64.StdEncoding.EncodeToString([]byte(url.QueryEscape(id)+":")), BodySecret: s}
 		}},
+		{"query-string", func(id, s string) world.Auth { return world.Auth{Mode: "query", ID: id, Secret: s} }},
 		{"nothing", func(id, s string) world.Auth { return world.Auth{Mode: "none"} }},
 		{"malformed-basic-not-base64", func(id, s string) world.Auth { return world.Auth{Mode: "raw", RawHeader: "Basic !!!not-base64!!!"} }},
 		{"malformed-basic-no-colon", func(id, s string) world.Auth {
@@ -109,6 +110,10 @@ func c10Decide(reg c10Reg, tr string, rel string, unknownClient bool) (int, stri
 		}
 		// an OIDC client: neither the Basic transport (no secret in the header) nor the post transport (no client_id in the body) is complete
 		return 0, "mixed-transport-not-a-permitted-method"
+	}
+	if tr == "query-string" {
+		// neither the Basic header nor the request body: no registered method permits credentials in the request URI
+		return 0, "credentials-in-request-uri"
 	}
 	if tr == "basic-unescaped" {
 		// the secret contains characters that change under form-urlencoding: an unescaped header carries a different secret
@@ -315,11 +320,11 @@ func C10(c *run.Ctx) {
 								}
 								for _, cl := range calls {
 									if world.TokenTableWrites[cl.Method] && cl.Err == "" {
-										c.Violate(run.Violation{Kind: "rejected-request-wrote-state", Key: fmt.Sprintf("rejected-request-wrote-state %s endpoint=%s", cl.Method, ep), Detail: "write " + cl.String() + " during a rejected request", History: hist})
+										c.Violate(run.Violation{Kind: "rejected-request-wrote-state", Key: fmt.Sprintf("rejected-request-wrote-state %s endpoint=%s (%s)", cl.Method, ep, effWhy), Detail: "write " + cl.String() + " during a rejected request", History: hist})
 									}
 								}
 								if d := world.DigestDiff(before, w.Store.Digest()); len(d) > 0 {
-									c.Violate(run.Violation{Kind: "rejected-request-changed-state", Key: "rejected-request-changed-state endpoint=" + ep, Detail: fmt.Sprint(d), History: hist})
+									c.Violate(run.Violation{Kind: "rejected-request-changed-state", Key: "rejected-request-changed-state endpoint=" + ep + " (" + effWhy + ")", Detail: fmt.Sprint(d), History: hist})
 								}
 							case 1:
 								if processed {
